@@ -5,6 +5,6 @@ CONSTANTS
   ResetSlot = TRUE
   SilentRK <- TSilent
 SPECIFICATION TraceSpec
-INVARIANTS ReplyIsOwn SilentStaysSilent AtMostOneSend OwnershipWalk LeaseBound AllHome
+INVARIANTS ReplyOptIsOwn ReplyIsOwn SilentStaysSilent AtMostOneSend OwnershipWalk LeaseBound AllHome
 POSTCONDITION TraceAccepted
 CHECK_DEADLOCK FALSE
